@@ -60,10 +60,10 @@ for rd in sorted(glob.glob(os.path.join(V, 'harmless', '*'))):
 
 # rounds whose full runs were not repeated with the final machinery: the screen (tools/screen.sh: extract + Verus on every unit that
 # reads a file the patch touches; a unit that verifies means that every check reading only that text is OK)
-sp = os.path.join(V, 'harmless', 'screen_rounds123.txt')
+sp = os.path.join(V, 'harmless', 'screen.txt')
 if os.path.exists(sp):
     print()
-    print('| harmless edit (rounds 1-3, cargo fmt: screen with the final machinery) | unit | Verus on the merged text |')
+    print('| harmless edit (rounds 1-3, cargo fmt, round 5: screen with the final machinery) | unit | Verus on the merged text |')
     print('|---|---|---|')
     for l in open(sp):
         mo = re.match(r'^(\S+) (\w+) :: (.*?) ::(.*)$', l.strip())
